@@ -59,7 +59,8 @@ def default_vals(b):
     size = int(np.prod([n for n, _ in dom + cod] or [1]))
     seed = sum(ord(c) for c in str(b["name"])) + 7 * len(dom) + 3 * len(cod)
     re = [((seed + 3 * i) % 5) - 2 for i in range(size)]
-    im = [((seed + 2 * i) % 3) - 1 for i in range(size)]
+    im = [0 if b.get("real") else ((seed + 2 * i) % 3) - 1
+          for i in range(size)]
     return re + im
 
 
@@ -75,6 +76,12 @@ def _tensor_box(b):
     k = b["k"]
     if k == "box":
         arr = tensor_array(b)
+        if not np.any(arr.imag):
+            # hand real data over as a real (integer or float) array, as a
+            # user would: functions applied entry by entry may leave the dtype
+            vals = b.get("vals") or default_vals(b)
+            arr = arr.real.astype(np.int64 if all(
+                isinstance(v, int) for v in vals) else float)
         if b.get("dag"):
             return tensor.Box(b["name"], _dim(b["cod"]), _dim(b["dom"]),
                               arr).dagger()
@@ -95,6 +102,8 @@ BUBBLE_FUNCS = {
     "square": lambda x: x * x,
     "plus1": lambda x: x + 1,
     "double": lambda x: 2 * x,
+    "half": lambda x: x / 2,
+    "phase": lambda x: x * 1j,
 }
 
 
